@@ -137,6 +137,21 @@ def run_orders(ctx, prop):
             for _ in range(rng.randrange(1, 5)):
                 tree.extend(rng.choice(sibs + tree.blocks[-2:]).hash())
             n = 0
+        if (not small) and (not boundary) and ti % 4 == 3:
+            # a deep tree: tips that are out-run by far more than a handful of blocks (a two-block side branch off the
+            # first block, a late fork low on the main branch) stay tips
+            g0 = tree.blocks[0].hash()
+            s_ = tree.extend(g0)
+            tree.extend(s_.hash())
+            cur = tree.extend(g0)
+            main_ = [cur]
+            top = 13 + rng.randrange(0, 4)
+            while cur.height < top:
+                cur = tree.extend(cur.hash())
+                main_.append(cur)
+            tree.extend(main_[rng.randrange(1, 4)].hash())
+            res.count("deep_trees")
+            n = 0
         for _ in range(n - 1):
             if rng.random() < (0.75 if small else 0.3):
                 tree.extend(rng.choice(tree.blocks).hash())      # any earlier block as parent
